@@ -17,6 +17,24 @@ PROPS = {
                 rule="Seeded histories of subscribe / publish / unsubscribe(close of the error channel) issued by 1-3 concurrent client goroutines in 2-5 barrier-separated phases against the real subPub; schedules (incl. the select between the subscribe and unsubscribe queues) chosen by the seeded scheduler.",
                 probes=["must_deliver"],
                 assumptions=["'registration has taken effect' / 'after its error channel fires' are read as: the system quiesced (no runnable goroutine) after Subscribe returned / after the channel was closed"]),
+    "C12": dict(tiers(qr=300, qb=50, tr=6000, tb=900, timeout=300),
+                level="exploration",
+                level_text="Seeded exploration of upload / download(cache) / pin / unpin / delete / get histories on a real node (api, netstore, localstore with its collection worker, chunkinfo, retrieval, traversal, pinning) next to a provider node on the simulated network; around every exclusive collection run the full index dumps are compared: pinned chunks and locally uploaded chunks survive, the pin index is unchanged.",
+                rule="Random files over a small chunk alphabet (shared and repeated 256 KiB chunks), 1-2 client goroutines, 2-4 phases, capacity 4-20 chunks; an exclusive collection run at every barrier.",
+                probes=["c12_gc_runs", "c12_gc_deleted", "c12_pinned_seen", "cached"],
+                assumptions=["chunk set of a file = addresses written by its upload (recorded between API and netstore)", "operations that do not return within 90 simulated seconds are abandoned and their file is excluded from assertions"]),
+    "C13": dict(tiers(qr=300, qb=50, tr=6000, tb=900, timeout=300),
+                level="exploration",
+                level_text="Same node world with 1-3 concurrent clients (gets of the file being evicted, pins/unpins, deletes concurrent with the collection worker and with synchronous collection runs); at every quiescent barrier, and after clean restarts, the persisted counter is compared with the sum of per-file cached counts from the index dump, and the total with the capacity.",
+                rule="As C12 with up to 3 clients; checks at quiescent points (all clients joined, no runnable goroutine, collection worker idle and no trigger pending).",
+                probes=["c13_checked", "c13_nonzero", "cached", "restart"],
+                assumptions=["'collection has quiesced' = worker idle, no trigger queued, no goroutine runnable; bounded liveness budget 10 simulated seconds"]),
+    "C16": dict(tiers(qr=300, qb=50, tr=6000, tb=900, timeout=300),
+                level="exploration",
+                level_text="Same node world; after every barrier (deletes through DELETE /aurora/{ref}) and after an exclusive collection run (eviction) every chunk of every other locally known file must still be stored and no unpinned chunk used only by deleted/evicted files may remain.",
+                rule="As C12; files share chunk-aligned content so that deletion of one file touches chunks of another.",
+                probes=["deleted", "c16_deleted_checked", "c16_evicted", "cached"],
+                assumptions=["chunk set of a file = addresses written by its upload"]),
 }
 
 NOT_APPLICABLE = {
